@@ -10,8 +10,7 @@ Status of the theorems
   join_inj, concat_fixed_inj, tag_inj, options_sorted_inj, options_order_indep, encode_stable,
   ident_valid, alias_valid, names_distinct                     full (all inputs of the model)
   encode_inj_partial                                           partial: needs `PrefixCode reprP`
-      (repr(points) readable back) and `FltInjOn T` (float layout injective on the floats that
-      occur).  The full statement
+      (repr(points) can be read back).  The full statement
           ∀ r₁ r₂, encodeRequest npRepr env r₁ = encodeRequest npRepr env r₂ → r₁.objs = r₂.objs ∧ …
       is FALSE for NumPy's repr: `encode_inj_counterexample` (rounding to 8 digits) and
       `encode_inj_counterexample_elided` (summarisation above 1000 entries) — DESIGN §7 F4.
@@ -22,7 +21,7 @@ Status of the theorems
 import FfcxProofs.Lemmas.Names
 
 namespace Ffcx.Naming
-variable {P : Type} {T : Flt → Prop}
+variable {P : Type}
 
 /-! ## The `;`-join and fixed-width concatenation -/
 
@@ -69,13 +68,16 @@ example : formTag (cs! "it's") (-3) = cs! "(\"it's\", -3)" := by decide
 
 /-! ## Option signature -/
 
+/-- Scalars the theorems speak about: str / int / bool / None, and floats given by their shortest
+round-trip digits in normal form (no opaque objects). -/
+abbrev Scalar.WF : Scalar → Prop := Scalar.OK Flt.Norm
+
 /-- `str(sorted(options.items()))` determines the option dict: equal signatures ⇒ the same items
-(python repr model for str / int / bool / None / float values; floats in a class on which the float
-layout is injective). -/
-theorem options_sorted_inj (hF : FltInjOn T) {o₁ o₂ : Options}
-    (h₁ : ∀ kv ∈ o₁, kv.2.OK T) (h₂ : ∀ kv ∈ o₂, kv.2.OK T)
+(python repr model for str / int / bool / None / float values). -/
+theorem options_sorted_inj {o₁ o₂ : Options}
+    (h₁ : ∀ kv ∈ o₁, kv.2.WF) (h₂ : ∀ kv ∈ o₂, kv.2.WF)
     (h : optionSignature o₁ = optionSignature o₂) : o₁.Perm o₂ := by
-  have := (optionSignature_prefix hF o₁ o₂ [] [] h₁ h₂ (by simpa using h)).1
+  have := (optionSignature_prefix reprFlt_inj o₁ o₂ [] [] h₁ h₂ (by simpa using h)).1
   exact (sortItems_perm o₁).symm.trans (this ▸ sortItems_perm o₂)
 
 /-- …and conversely the signature does not depend on the order in which the dict was filled. -/
@@ -94,18 +96,15 @@ example : optionSignature sampleOptions =
     cs! "[('epsilon', 1e-14), ('language', 'C'), ('scalar_type', 'float64'), ('sum_factorization', False), ('table_rtol', 1e-06), ('verbosity', 30)]" := by
   decide
 
-/-- The float class of `sampleOptions`: the layout is injective on it (decided). -/
-def sampleFloats (f : Flt) : Prop := f ∈ [Flt.fin false [1] (-13), Flt.fin false [1] (-5), Flt.fin false [1] (-8)]
-
-example : FltInjOn sampleFloats := by
-  intro f g hf hg h
-  simp only [sampleFloats, List.mem_cons, List.not_mem_nil, or_false] at hf hg
-  rcases hf with rfl | rfl | rfl <;> rcases hg with rfl | rfl | rfl <;> first | rfl | (revert h; decide)
-
-example : ∀ kv ∈ sampleOptions, kv.2.OK sampleFloats := by
+example : ∀ kv ∈ sampleOptions, kv.2.WF := by
   intro kv h
   simp only [sampleOptions, List.mem_cons, List.not_mem_nil, or_false] at h
-  rcases h with rfl | rfl | rfl | rfl | rfl | rfl <;> simp [Scalar.OK, sampleFloats]
+  rcases h with rfl | rfl | rfl | rfl | rfl | rfl <;> simp [Scalar.OK, Flt.Norm]
+
+/-- `1e-14` and `1e-06` are printed from the normal forms 0.1·10⁻¹³ and 0.1·10⁻⁵. -/
+example : reprFlt (.fin false [1] (-13)) = cs! "1e-14" ∧ reprFlt (.fin false [1] (-5)) = cs! "1e-06" ∧
+    reprFlt (.fin true [1, 2, 5] 2) = cs! "-12.5" ∧ reprFlt (.fin false [1] 17) = cs! "1e+16" ∧
+    reprFlt (.fin false [1] 16) = cs! "1000000000000000.0" := by decide
 
 /-! ## The pre-hash string -/
 
@@ -202,13 +201,12 @@ theorem encode_objs_tag_inj {reprP : P → Str} (hP : PrefixCode reprP) (hsemi :
 /-- Equal pre-hash strings of two JIT requests ⇒ equal signatures and evaluation points, equal
 options, equal extra compile arguments, equal debug flag, equal CFLAGS+SOABI text.
 
-PARTIAL: the hypotheses `PrefixCode reprP` / `hsemi` (about `repr(points)`) and `FltInjOn T`
-(about the float layout) are what the proof forces. `PrefixCode npRepr` is false — see the
-counterexamples below. -/
+PARTIAL: the hypotheses `PrefixCode reprP` / `hsemi` (about `repr(points)`) are what the proof
+forces. `PrefixCode npRepr` is false — see the counterexamples below. -/
 theorem encode_inj_partial {reprP : P → Str} (hP : PrefixCode reprP) (hsemi : ∀ p, ';' ∉ reprP p)
-    (hF : FltInjOn T) {env : Env} (henv : env.WF) {r₁ r₂ : Request P}
+    {env : Env} (henv : env.WF) {r₁ r₂ : Request P}
     (h₁ : r₁.objs.WF) (h₂ : r₂.objs.WF)
-    (ho₁ : ∀ kv ∈ r₁.options, kv.2.OK T) (ho₂ : ∀ kv ∈ r₂.options, kv.2.OK T)
+    (ho₁ : ∀ kv ∈ r₁.options, kv.2.WF) (ho₂ : ∀ kv ∈ r₂.options, kv.2.WF)
     {b₁ b₂ : Bool} (hd₁ : r₁.compile.debug = .bool b₁) (hd₂ : r₂.compile.debug = .bool b₂)
     {s : Str} (e₁ : encodeRequest reprP env r₁ = some s) (e₂ : encodeRequest reprP env r₂ = some s) :
     r₁.objs = r₂.objs ∧ r₁.options.Perm r₂.options ∧
@@ -217,7 +215,7 @@ theorem encode_inj_partial {reprP : P → Str} (hP : PrefixCode reprP) (hsemi : 
       strScalar r₂.compile.cflags ++ strScalar r₂.compile.soabi := by
   obtain ⟨ho, ht⟩ := encode_objs_tag_inj hP hsemi henv h₁ h₂ e₁ e₂
   unfold moduleTag at ht
-  obtain ⟨hs, hc⟩ := optionSignature_prefix hF _ _ _ _ ho₁ ho₂ ht
+  obtain ⟨hs, hc⟩ := optionSignature_prefix reprFlt_inj _ _ _ _ ho₁ ho₂ ht
   unfold compilationSignature at hc
   simp only [List.append_assoc] at hc
   obtain ⟨ha, hr⟩ := argsRepr_prefix _ _ _ _ hc
@@ -288,6 +286,24 @@ theorem exactRepr_no_semi (l : List Int) : ';' ∉ exactRepr l := by
   · revert hm; decide
 
 example : exactRepr [1, -2, 30] = cs! "[1, -2, 30]" := by decide
+
+/-- The hypotheses of `encode_inj_partial` are jointly satisfiable (exact point printer, a concrete
+environment, a 128-hex signature, the default-like option dict). -/
+example : PrefixCode exactRepr ∧ (∀ l, ';' ∉ exactRepr l) ∧
+    Env.WF ⟨cs! "0.11.0.dev0", cs! "79f1a657d2b8defd18bec429a24080d2534220eb"⟩ ∧
+    Objs.WF (Objs.exprs [(List.replicate 128 'a', [1, 2])]) ∧ (∀ kv ∈ sampleOptions, kv.2.WF) := by
+  refine ⟨exactRepr_prefix, exactRepr_no_semi, ⟨by decide, by decide⟩, ?_, ?_⟩
+  · intro e he
+    simp only [List.mem_cons, List.not_mem_nil, or_false] at he
+    subst he
+    exact ⟨by simp, fun c hc => by rw [(List.mem_replicate.mp hc).2]; decide⟩
+  · intro kv h
+    simp only [sampleOptions, List.mem_cons, List.not_mem_nil, or_false] at h
+    rcases h with rfl | rfl | rfl | rfl | rfl | rfl <;> simp [Scalar.OK, Flt.Norm]
+
+example : encodeRequest exactRepr ⟨cs! "0.1", cs! "ab"⟩
+    ⟨.exprs [(cs! "f00d", [1, 2])], [(cs! "k", .int 1)], ⟨[cs! "-O2"], .bool false, .str (cs! "-g"), .none⟩⟩ =
+    some (cs! "f00d[1, 2];0.1;ab;expression;[('k', 1)]['-O2']False-gNone") := by decide
 
 /-! ### The real printer is not injective (DESIGN §7 F4) -/
 
@@ -464,6 +480,19 @@ theorem names_distinct (hlen : ∀ s, (sha1 s).length = 40) (objs : List (GenObj
         true_and] at hn
       simp only [GenObj.key, Prod.mk.injEq, and_true, true_and]
       exact hab hn
+
+/-- Non-vacuity of `names_distinct`: a toy "hash" (the last 40 characters) that is injective on
+the three hashed strings of a module with two forms and one integral. -/
+example :
+    let sha : Str → Str := fun s => (s.reverse.take 40).reverse.map (fun c => if isHexChar c then c else 'a')
+    let e : Env := ⟨cs! "0.1", cs! "ab"⟩
+    let objs : List (GenObj Unit) :=
+      [.form (cs! "aa") 0, .form (cs! "bb") 1, .integral (cs! "aa") 0 ⟨cs! "cell", [.int 1], 0⟩ (cs! "triangle")]
+    (∀ a ∈ objs, ∀ b ∈ objs, sha (a.prehash (fun _ => []) e (cs! "m")) = sha (b.prehash (fun _ => []) e (cs! "m")) →
+      a.prehash (fun _ => []) e (cs! "m") = b.prehash (fun _ => []) e (cs! "m")) ∧
+    objs.Pairwise (fun a b => a.key (fun _ => []) e (cs! "m") ≠ b.key (fun _ => []) e (cs! "m")) ∧
+    (objs.map (GenObj.name sha (fun _ => []) e (cs! "m"))).Nodup := by
+  decide +kernel
 
 end Ident
 
